@@ -108,7 +108,12 @@ def exc_mech(exc: BaseException) -> str:
             mod = fr.filename.split('/pymap/', 1)[1].rsplit('.', 1)[0]
             where = '%s.%s' % (mod.replace('/', '.'), fr.name)
             break
-    return '%s@%s' % (type(exc).__name__, where)
+    mech = '%s@%s' % (type(exc).__name__, where)
+    if mech == 'NotImplementedError@mime.cte.of_cte' and exc.args and \
+            exc.args[0] in ('7bit', '8bit', 'binary'):
+        # RFC 2045 identity encodings are not "unknown"
+        mech += ':identity-encoding'
+    return mech
 
 
 def judge_close(ctx: Ctx, conn: Conn, what: str) -> bool:
